@@ -149,6 +149,10 @@ func c03Drive(r *obs.Run, kind string, data []byte, origin string) c03Outcome {
 		read = func() (interface{}, error) { s, err := rd.Read(); return s, err }
 	case "gff":
 		rd := gff.NewReader(src)
+		if r.Rng.Intn(3) == 0 { // date parsing switched off: an incomplete ##date line is still incomplete
+			rd.TimeFormat = ""
+			r.Count("gff_readers_without_time_format", 1)
+		}
 		read = func() (interface{}, error) { f, err := rd.Read(); return f, err }
 	default:
 		n := map[string]int{"bed3": 3, "bed4": 4, "bed5": 5, "bed6": 6, "bed12": 12}[kind]
